@@ -3,7 +3,9 @@ package harness
 import (
 	"context"
 	"encoding/json"
+	"errors"
 	"fmt"
+	"io"
 	"hash/fnv"
 
 	"google.golang.org/grpc/metadata"
@@ -153,7 +155,9 @@ func unknownTxExec(c UnknownTxCase, choices []int32) RunOut {
 				if e == nil {
 					e = st.Send(&store.SetFileRequest{Data: &store.SetFileRequest_Chunk{Chunk: payload(2, 30)}})
 				}
-				if e == nil {
+				if e == nil || errors.Is(e, io.EOF) {
+					// Send reports io.EOF once the server has ended the call; the verdict is
+					// what CloseAndRecv returns (grpc-go's contract for client streams)
 					_, e = st.CloseAndRecv()
 				}
 				err = e
